@@ -1,103 +1,94 @@
 (** C20 — The metrics exporter cannot be wedged by its clients.
     Only statements closed by [exact]; proofs live in Exporter/AcceptLemmas.v.
-    Model: Exporter/AcceptLoop.v ([step] = exporter.rs as it is, [step_fixed] =
-    the repaired loop; [run] uses [step_impl], the one tied to the binary). *)
+    Model: Exporter/AcceptLoop.v.  [step_impl] = [step_fixed] = the accept loop of
+    exporter.rs as it is since the F19 repair (commit b7381c9); it is the model
+    tied to the real binary ([run]).  [step_before_fix] is the loop before that
+    commit, kept for the historic refutations at the end of this file. *)
 From SV Require Import Exporter.AcceptCases Exporter.AcceptLemmas.
 
-(** Uniform statement for the model tied to the real binary: for EVERY finite
-    list of connection scripts (any chunking, any client and observation-socket
-    behaviour), unless the run shows exactly one of the recorded failure patterns
-    (F19: kf 1 premature close -> spin, kf 2 oversize -> spin, kf 3 reset -> exit),
-    every client was treated as the property demands and the exporter is alive
-    and idle at the end. *)
+(** Uniform statement, NO exemption: for EVERY finite list of connection scripts
+    (any chunking; premature close, oversize, non-GET, reset, write error; any
+    observation-socket outcome) every client is treated as the property demands
+    (well-formed GET: 200, or 500 when the handler fails; everybody else: the
+    connection is closed) and the exporter is alive and idle at the end. *)
 Theorem C20_main : forall items : list item,
-  let o := obs_of items (run items) in
-  kf_C20 (items, o) = 0 -> ok_C20 items o = true.
+  ok_C20 items (obs_of items (run items)) = true.
 Proof. exact C20_impl_all. Qed.
 
-(** [serves_next] for today's loop under the guard [benign] (every connection
-    delivers the header terminator within 2048 bytes before EOF; no I/O error):
-    for lists of ANY length the follow-up request is being answered (200, or 500
-    when the handler fails) within [bound] steps, and the process never exits. *)
+(** Unrestricted [serves_next]: after ANY finite list of connection scripts a
+    well-formed request is being answered (200, or 500 when the handler fails)
+    within [bound] steps; the process never exits. *)
 Theorem C20_serves_next : forall pre last,
-  benign pre = true -> wellformed_get last = true ->
+  no_accept_err pre = true -> wellformed_get last = true ->
   let items := pre ++ [Conn last] in
   (exists n, (n <= bound items)%nat /\
-     iter n step (init items)
-     = mkCfg (Responding (status_of (c_hnd last)) WOk) [] (map expected_item pre))
-  /\ (forall m, st (iter m step (init items)) <> Exited)
-  /\ run_with step items
-     = (map expected_item pre ++ [OStatus (status_of (c_hnd last))], FIdle).
-Proof. exact serves_next. Qed.
+     iter n step_impl (init items)
+     = mkCfg (Responding (status_of (c_hnd last)) WOk) [] (map expected_fixed_item pre))
+  /\ (forall m, st (iter m step_impl (init items)) <> Exited)
+  /\ run items = (map expected_fixed_item pre ++ [OStatus (status_of (c_hnd last))], FIdle).
+Proof. exact serves_next_impl. Qed.
 
-(** The three refutations of the unguarded statement on today's code, for ALL n. *)
-Theorem C20_eof_spins : forall n h w g rest,
-  iter (S n) step (init (Conn (mkConn [REof] h w g) :: rest)) = rd_cfg [REof] h w [] rest [].
+(** The only way out of [main] that is left is a failing listener. *)
+Theorem C20_accept_error_exits : forall n p lg,
+  iter (S n) step_impl (acc_cfg (AcceptErr :: p) lg) = mkCfg Exited p lg.
+Proof. exact accept_error_exits_impl. Qed.
+
+(** Non-vacuity: hostile clients (premature close, 3000 bytes without terminator,
+    reset, failing handler, write error) followed by a well-formed GET satisfy the
+    hypotheses of [C20_serves_next] and the run is as stated. *)
+Example C20_nonvacuous :
+  no_accept_err [Conn (mkConn [REof] HOk WOk false);
+                 Conn (mkConn [RChunk 65 (repeat 65 2999)] HOk WOk false);
+                 Conn (mkConn [RChunk 71 [69]; RErr] HOk WOk true);
+                 Conn (mkConn (mk_chunk GET_BYTES []) HErr WOk false);
+                 Conn (mkConn (mk_chunk GET_BYTES []) HOk WErr true)] = true
+  /\ wellformed_get good_get = true
+  /\ run [Conn (mkConn [REof] HOk WOk false);
+          Conn (mkConn [RChunk 65 (repeat 65 2999)] HOk WOk false);
+          Conn (mkConn [RChunk 71 [69]; RErr] HOk WOk true);
+          Conn (mkConn (mk_chunk GET_BYTES []) HErr WOk false);
+          Conn (mkConn (mk_chunk GET_BYTES []) HOk WErr true);
+          Conn good_get]
+     = ([ODropped; ODropped; ODropped; OStatus 500; ODropped; OStatus 200], FIdle).
+Proof. vm_compute. repeat split; reflexivity. Qed.
+
+(** * ---- HISTORIC: the loop before the F19 repair ([step_before_fix]) ----
+    Why the repair was needed: the three refutations, for ALL n, and the guarded
+    statement that was the best one could prove of that loop. *)
+
+Theorem C20_before_fix_eof_spins : forall n h w g rest,
+  iter (S n) step_before_fix (init (Conn (mkConn [REof] h w g) :: rest)) = rd_cfg [REof] h w [] rest [].
 Proof. exact eof_spins. Qed.
 
-Theorem C20_eof_spins_general : forall c p lg,
+Theorem C20_before_fix_eof_spins_general : forall c p lg,
   kind_of c = KEof ->
   exists T, st T <> Accepting /\ pending T = p /\ log T = lg /\
-    forall n, (1 + length (c_reads c) <= n)%nat -> iter n step (acc_cfg (Conn c :: p) lg) = T.
+    forall n, (1 + length (c_reads c) <= n)%nat -> iter n step_before_fix (acc_cfg (Conn c :: p) lg) = T.
 Proof. exact eof_spins_partial. Qed.
 
-Theorem C20_oversize_spins : forall c p lg,
+Theorem C20_before_fix_oversize_spins : forall c p lg,
   kind_of c = KOversize ->
   exists T, st T <> Accepting /\ pending T = p /\ log T = lg /\
-    forall n, (1 + length (c_reads c) <= n)%nat -> iter n step (acc_cfg (Conn c :: p) lg) = T.
+    forall n, (1 + length (c_reads c) <= n)%nat -> iter n step_before_fix (acc_cfg (Conn c :: p) lg) = T.
 Proof. exact oversize_spins. Qed.
 
-Theorem C20_oversize_spins_state : forall n rs h w buf p lg,
-  has_term buf = false -> (BUFn <= length buf)%nat ->
-  iter n step (rd_cfg rs h w buf p lg) = rd_cfg rs h w buf p lg.
-Proof. exact oversize_spins_state. Qed.
-
-Theorem C20_reset_exits : forall c p lg,
+Theorem C20_before_fix_reset_exits : forall c p lg,
   kind_of c = KReset \/ kind_of c = KGetRst ->
   forall n, (2 + length (c_reads c) <= n)%nat ->
-    iter n step (acc_cfg (Conn c :: p) lg) = mkCfg Exited p lg.
+    iter n step_before_fix (acc_cfg (Conn c :: p) lg) = mkCfg Exited p lg.
 Proof. exact reset_exits. Qed.
 
-Theorem C20_serves_next_refuted :
-  run_with step [Conn (mkConn [REof] HOk WOk false); Conn good_get] = ([ONone; ONone], FSpin)
-  /\ run_with step [Conn (mkConn [RChunk 65 (repeat 65 2999)] HOk WOk false); Conn good_get]
+Theorem C20_before_fix_refuted :
+  run_with step_before_fix [Conn (mkConn [REof] HOk WOk false); Conn good_get] = ([ONone; ONone], FSpin)
+  /\ run_with step_before_fix [Conn (mkConn [RChunk 65 (repeat 65 2999)] HOk WOk false); Conn good_get]
      = ([ONone; ONone], FSpin)
-  /\ run_with step [Conn (mkConn [RChunk 71 [69]; RErr] HOk WOk true); Conn good_get]
+  /\ run_with step_before_fix [Conn (mkConn [RChunk 71 [69]; RErr] HOk WOk true); Conn good_get]
      = ([ONone; ONone], FExit).
 Proof.
   exact (conj serves_next_refuted_eof (conj serves_next_refuted_oversize serves_next_refuted_reset)).
 Qed.
 
-(** THE REPAIRED LOOP: unrestricted [serves_next] and the oracle without any
-    known-finding exemption, for every input. *)
-Theorem C20_serves_next_fixed : forall pre last,
-  no_accept_err pre = true -> wellformed_get last = true ->
-  let items := pre ++ [Conn last] in
-  (exists n, (n <= bound items)%nat /\
-     iter n step_fixed (init items)
-     = mkCfg (Responding (status_of (c_hnd last)) WOk) [] (map expected_fixed_item pre))
-  /\ (forall m, st (iter m step_fixed (init items)) <> Exited)
-  /\ run_with step_fixed items
-     = (map expected_fixed_item pre ++ [OStatus (status_of (c_hnd last))], FIdle).
-Proof. exact serves_next_fixed. Qed.
-
-Theorem C20_fixed_main : forall items,
-  ok_C20 items (obs_of items (run_with step_fixed items)) = true.
-Proof. exact C20_fixed_all. Qed.
-
-(** Non-vacuity: a benign two-connection prefix (GET with failing handler, POST)
-    followed by a well-formed GET satisfies the hypotheses of [C20_serves_next]
-    and is served; the same prefix with hostile clients is served by the
-    repaired loop. *)
-Example C20_nonvacuous :
-  benign [Conn (mkConn (mk_chunk GET_BYTES []) HErr WOk false);
-          Conn (mkConn [RChunk 80 [79; 83; 84; 32; 47; 32; 72; 13; 10]; RChunk 13 [10]] HOk WOk false)] = true
-  /\ wellformed_get good_get = true
-  /\ run_with step [Conn (mkConn (mk_chunk GET_BYTES []) HErr WOk false);
-          Conn (mkConn [RChunk 80 [79; 83; 84; 32; 47; 32; 72; 13; 10]; RChunk 13 [10]] HOk WOk false);
-          Conn good_get] = ([OStatus 500; ODropped; OStatus 200], FIdle)
-  /\ run_with step_fixed [Conn (mkConn [REof] HOk WOk false);
-          Conn (mkConn [RChunk 65 (repeat 65 2999)] HOk WOk false);
-          Conn (mkConn [RChunk 71 [69]; RErr] HOk WOk true);
-          Conn good_get] = ([ODropped; ODropped; ODropped; OStatus 200], FIdle).
-Proof. vm_compute. repeat split; reflexivity. Qed.
+Theorem C20_before_fix_guarded : forall items,
+  let o := obs_of items (run_with step_before_fix items) in
+  kf_before_fix (items, o) = 0 -> ok_C20 items o = true.
+Proof. exact before_fix_all. Qed.
